@@ -145,60 +145,79 @@ theorem run_clipped (num den : Rat) (y n : PT α) (rs : RS) :
 
 /-! ### leaves -/
 
-/-- every leaf that can carry mass satisfies `P` -/
+/-- every leaf that can carry mass satisfies `P`: outcomes `i ≥ d.n` and outcomes of idealised weight 0
+are not followed -/
 def All (P : α → Prop) : PT α → Prop
   | ret a => P a
-  | node d k => ∀ i, i < d.n → All P (k i)
+  | node d k => ∀ i, i < d.n → d.w i ≠ 0 → All P (k i)
 
 @[simp] theorem All_ret (P : α → Prop) (a : α) : All P (ret a) ↔ P a := Iff.rfl
 
 theorem All_node (P : α → Prop) (d : Draw) (k : Nat → PT α) :
-    All P (node d k) ↔ ∀ i, i < d.n → All P (k i) := Iff.rfl
+    All P (node d k) ↔ ∀ i, i < d.n → d.w i ≠ 0 → All P (k i) := Iff.rfl
 
 theorem All_mono {P Q : α → Prop} (h : ∀ a, P a → Q a) : ∀ (t : PT α), All P t → All Q t
   | ret a, ht => h a ht
-  | node _ k, ht => fun i hi => All_mono h (k i) (ht i hi)
+  | node _ k, ht => fun i hi hw => All_mono h (k i) (ht i hi hw)
 
 theorem All_true : ∀ (t : PT α), All (fun _ => True) t
   | ret _ => trivial
-  | node _ k => fun i _ => All_true (k i)
+  | node _ k => fun i _ _ => All_true (k i)
 
 theorem All_and {P Q : α → Prop} : ∀ (t : PT α), All P t → All Q t → All (fun a => P a ∧ Q a) t
   | ret _, h1, h2 => ⟨h1, h2⟩
-  | node _ k, h1, h2 => fun i hi => All_and (k i) (h1 i hi) (h2 i hi)
+  | node _ k, h1, h2 => fun i hi hw => All_and (k i) (h1 i hi hw) (h2 i hi hw)
 
 theorem All_bind {Q : α → Prop} {P : β → Prop} {f : α → PT β} :
     ∀ (t : PT α), All Q t → (∀ a, Q a → All P (f a)) → All P (bind t f)
   | ret a, ht, hf => hf a ht
-  | node _ k, ht, hf => fun i hi => All_bind (k i) (ht i hi) hf
+  | node _ k, ht, hf => fun i hi hw => All_bind (k i) (ht i hi hw) hf
 
 theorem All_map {Q : α → Prop} {P : β → Prop} {φ : α → β} (t : PT α) (ht : All Q t)
     (hφ : ∀ a, Q a → P (φ a)) : All P (map φ t) :=
   All_bind t ht hφ
 
-theorem All_flip {P : α → Prop} {p : Rat} {y n : PT α} (hy : All P y) (hn : All P n) :
+/-- the `yes` branch of `flip p` matters only if `p ≠ 0`, the `no` branch only if `p ≠ 1` -/
+theorem All_flip_w {P : α → Prop} {p : Rat} {y n : PT α} (hy : p ≠ 0 → All P y) (hn : p ≠ 1 → All P n) :
     All P (flip p y n) := by
-  intro i _
+  intro i _ hw
   show All P (if i = 1 then y else n)
-  split
-  · exact hy
-  · exact hn
+  have hw' : (if 0 ≤ p ∧ p ≤ 1 then (if i = 1 then p else 1 - p) else 0) ≠ 0 := hw
+  by_cases hg : 0 ≤ p ∧ p ≤ 1
+  · rw [if_pos hg] at hw'
+    by_cases hi : i = 1
+    · rw [if_pos hi] at hw' ⊢; exact hy hw'
+    · rw [if_neg hi] at hw' ⊢
+      exact hn (fun e => hw' (by rw [e]; ring))
+  · rw [if_neg hg] at hw'; exact absurd rfl hw'
+
+theorem All_flip {P : α → Prop} {p : Rat} {y n : PT α} (hy : All P y) (hn : All P n) :
+    All P (flip p y n) := All_flip_w (fun _ => hy) (fun _ => hn)
 
 theorem All_pick {P : α → Prop} {n : Nat} {k : Nat → PT α} (h : ∀ i, i < n → All P (k i)) :
-    All P (pick n k) := h
+    All P (pick n k) := fun i hi _ => h i hi
 
 theorem All_panic {P : α → Prop} (t : PT α) : All P (panic t) := by
   intro i hi
   exact absurd hi (Nat.not_lt_zero i)
 
-theorem All_clipped {P : α → Prop} {num den : Rat} {y n : PT α} (hy : All P y) (hn : All P n) :
-    All P (clipped num den y n) := by
+/-- the `yes` branch of `clipped num den` matters only if `clipProb num den ≠ 0` -/
+theorem All_clipped_w {P : α → Prop} {num den : Rat} {y n : PT α} (hy : clipProb num den ≠ 0 → All P y)
+    (hn : All P n) : All P (clipped num den y n) := by
   unfold clipped
+  unfold clipProb at hy
   split
-  · exact hy
-  · split
+  · rename_i h
+    rw [if_pos h] at hy
+    exact hy one_ne_zero
+  · rename_i h
+    rw [if_neg h] at hy
+    split
     · exact All_panic n
-    · exact All_flip hy hn
+    · exact All_flip_w hy (fun _ => hn)
+
+theorem All_clipped {P : α → Prop} {num den : Rat} {y n : PT α} (hy : All P y) (hn : All P n) :
+    All P (clipped num den y n) := All_clipped_w (fun _ => hy) hn
 
 /-! ### the law -/
 
@@ -266,7 +285,9 @@ theorem law_eq_zero_of_All {P : α → Prop} : ∀ (t : PT α), All P t → ∀ 
   | node d k, ht, x, hx => by
     rw [law_node]
     refine Finset.sum_eq_zero (fun i hi => ?_)
-    rw [law_eq_zero_of_All (k i) (ht i (Finset.mem_range.mp hi)) x hx, mul_zero]
+    by_cases hw : d.w i = 0
+    · rw [hw, zero_mul]
+    · rw [law_eq_zero_of_All (k i) (ht i (Finset.mem_range.mp hi) hw) x hx, mul_zero]
 
 /-! ### law of a bind -/
 
@@ -282,8 +303,13 @@ theorem law_bind_on (S : Finset α) (f : α → PT β) (c : β) :
     · intro h; exact absurd ha h
   | node d k, ht => by
     simp only [node_bind, law_node]
-    rw [Finset.sum_congr rfl (fun i hi => by
-      rw [law_bind_on S f c (k i) (ht i (Finset.mem_range.mp hi))])]
+    have hterm : ∀ i ∈ Finset.range d.n, d.w i * law (bind (k i) f) c =
+        d.w i * ∑ b ∈ S, law (k i) b * law (f b) c := by
+      intro i hi
+      by_cases hw : d.w i = 0
+      · rw [hw, zero_mul, zero_mul]
+      · rw [law_bind_on S f c (k i) (ht i (Finset.mem_range.mp hi) hw)]
+    rw [Finset.sum_congr rfl hterm]
     simp only [Finset.mul_sum, Finset.sum_mul]
     rw [Finset.sum_comm]
     refine Finset.sum_congr rfl (fun b _ => Finset.sum_congr rfl (fun i _ => ?_))
@@ -301,8 +327,10 @@ theorem law_bind_congr {P : α → Prop} {f g : α → PT β} (c : β) :
   | ret a, ht, h => h a ht
   | node d k, ht, h => by
     simp only [node_bind, law_node]
-    exact Finset.sum_congr rfl (fun i hi => by
-      rw [law_bind_congr c (k i) (ht i (Finset.mem_range.mp hi)) h])
+    refine Finset.sum_congr rfl (fun i hi => ?_)
+    by_cases hw : d.w i = 0
+    · rw [hw, zero_mul, zero_mul]
+    · rw [law_bind_congr c (k i) (ht i (Finset.mem_range.mp hi) hw) h]
 
 /-- law of an image -/
 theorem law_map_on (S : Finset α) (φ : α → β) (c : β) (t : PT α) (ht : All (fun a => a ∈ S) t) :
